@@ -443,6 +443,127 @@ func c20Special(chk *fw.Check) int {
 				chk.Violation("C20|cycle-"+res.Verdict.String()+"|"+sig, firstLines(res.Detail, 5), nil)
 			}
 		}
+		// (4) a Provision which fails after the work_dir was registered and a store was opened (the second configured CRL
+		// is no CRL): the module is cleaned up (as caddy does), the corrected configuration provisions on the same work_dir
+		for _, src := range []string{"crl_urls", "crl_files"} {
+			n++
+			src := src
+			sig := fmt.Sprintf("backend=%s failed-provision source=%s", be(disk), src)
+			res := seqWorld(func() {
+				dir := FreshDir("c20p")
+				defer os.RemoveAll(dir)
+				files := FreshDir("c20pf")
+				defer os.RemoveAll(files)
+				net := world.NewNet()
+				net.Serve(urlA, "v1", v1)
+				net.Serve(urlB, "garbage", []byte("this is not a CRL"))
+				os.WriteFile(filepath.Join(files, "a.crl"), v1, 0644)
+				os.WriteFile(filepath.Join(files, "b.crl"), []byte("this is not a CRL"), 0644)
+				o := CWOpt{Disk: disk, SigMode: config.SignatureValidationModeVerify, Dir: dir, Net: net, Trusted: []*x509.Certificate{p.CA.Cert}, Interval: "10m"}
+				bad, good := o, o
+				if src == "crl_urls" {
+					bad.URLs, good.URLs = []string{urlA, urlB}, []string{urlA}
+				} else {
+					bad.Files, good.Files = []string{filepath.Join(files, "a.crl"), filepath.Join(files, "b.crl")}, []string{filepath.Join(files, "a.crl")}
+				}
+				for round := 1; round <= 2; round++ {
+					w := NewCW(bad)
+					if err := w.Provision(); err == nil {
+						chk.Violation("C20|harness|failed-provision|"+sig, "Provision accepted a configured CRL which is no CRL", nil)
+						return
+					}
+					w.Chk.Cleanup()
+					vsched.Drain()
+					if live, sites := vsched.Live(); live > 0 {
+						chk.Violation("C20|background-activity-after-cleanup", fmt.Sprintf("%s: %d goroutine(s) alive after the failed instance was cleaned up: %v", sig, live, sites), nil)
+					}
+					for name, reg := range crl.VerifWorkDirsInUse() {
+						if reg != 0 {
+							chk.Violation("C20|work_dir-still-registered|"+sig, fmt.Sprintf("work_dir registration %q not released by the Cleanup of an instance whose Provision had failed", name), nil)
+						}
+					}
+					if open := vleveldb.OpenPaths(); len(open) > 0 {
+						chk.Violation("C20|database-handle-open-after-cleanup|"+sig, fmt.Sprintf("%d database handle(s) still open after the Cleanup of an instance whose Provision had failed: %v", len(open), open), nil)
+					}
+				}
+				w := NewCW(good)
+				if err := w.Provision(); err != nil {
+					chk.Violation("C20|cycle-provision-fails|"+sig, "the corrected configuration on the same work_dir: "+err.Error(), nil)
+					return
+				}
+				vsched.Drain()
+				w.Chk.Cleanup()
+				vsched.Drain()
+			})
+			if res.Verdict != vsched.OK {
+				chk.Violation("C20|cycle-"+res.Verdict.String()+"|"+sig, firstLines(res.Detail, 5), nil)
+			}
+		}
+		// (5) a tick which comes shortly after a refresh has finished (a forced refresh, started by a newly seen
+		// distribution point in fetch_background, ended 4 minutes earlier; interval 10 minutes) is skipped - and leaves
+		// nothing behind: the next ticks refresh, Cleanup ends everything, the next instance refreshes as well
+		for _, inst := range []int{1, 2} {
+			n++
+			inst := inst
+			sig := fmt.Sprintf("backend=%s tick-shortly-after-refresh instances=%d", be(disk), inst)
+			res := seqWorld(func() {
+				net := world.NewNet()
+				net.Serve(urlA, "v1", v1)
+				net.Serve(urlB, "vb", world.SimpleCRL(p.CA, 1, 903).DER())
+				var dirs []string
+				defer func() {
+					for _, d := range dirs {
+						os.RemoveAll(d)
+					}
+				}()
+				mk := func() *CW {
+					d := FreshDir("c20t")
+					dirs = append(dirs, d)
+					w := NewCW(CWOpt{Disk: disk, SigMode: config.SignatureValidationModeVerify, Dir: d, Net: net, Trusted: []*x509.Certificate{p.CA.Cert}, Interval: "10m", Background: true, URLs: []string{urlA}})
+					if err := w.Provision(); err != nil {
+						panic(err)
+					}
+					vsched.Drain()
+					return w
+				}
+				var ws []*CW
+				for i := 0; i < inst; i++ {
+					ws = append(ws, mk())
+				}
+				vsched.Advance(6 * time.Minute)
+				lb := world.Leaf(p.CA, bi(904), []string{urlB}, nil)
+				ws[0].Lookup(lb, world.Chain(lb, p.CA, p.Root)) // new distribution point: forced refresh in the background
+				vsched.Drain()
+				vsched.Advance(4*time.Minute + time.Second) // the tick, 4 minutes after that refresh finished
+				vsched.Drain()
+				before := net.HitsFor(urlA)
+				vsched.Advance(10 * time.Minute) // the next tick
+				vsched.Drain()
+				if got := net.HitsFor(urlA) - before; got < inst {
+					chk.Violation("C20|refresh-stalled-after-skipped-tick|"+sig, fmt.Sprintf("after a tick which was skipped (a refresh had finished 4 minutes earlier) the next tick fetched the configured CRL %d time(s), %d instance(s) are live", got, inst), nil)
+				}
+				for _, w := range ws {
+					w.Chk.Cleanup()
+				}
+				vsched.Drain()
+				if live, sites := vsched.Live(); live > 0 {
+					chk.Violation("C20|background-activity-after-cleanup", fmt.Sprintf("%s: %d goroutine(s) still alive after Cleanup: %v", sig, live, sites), nil)
+				}
+				before = net.HitsFor(urlA)
+				w := mk()
+				if got := net.HitsFor(urlA) - before; got < 1 {
+					chk.Violation("C20|refresh-stalled-after-skipped-tick|"+sig+" next-instance", "an instance provisioned after the cycle never fetched its configured CRL", nil)
+				}
+				w.Chk.Cleanup()
+				vsched.Drain()
+				if live, sites := vsched.Live(); live > 0 {
+					chk.Violation("C20|background-activity-after-cleanup", fmt.Sprintf("%s next cycle: %d goroutine(s) still alive after Cleanup: %v", sig, live, sites), nil)
+				}
+			})
+			if res.Verdict != vsched.OK {
+				chk.Violation("C20|cycle-"+res.Verdict.String()+"|"+sig, firstLines(res.Detail, 5), nil)
+			}
+		}
 		n++
 		res := seqWorld(func() {
 			dir := FreshDir("c20x")
